@@ -35,6 +35,16 @@ def confCore (leaf : Name → J → Bool) : GType → J → Bool
 def conf (leaf : Name → J → Bool) (t : GType) (v : J) : Bool :=
   (!t.isNonNull && v.isNull) || confCore leaf t v
 
+/-- `confCore`, as a proposition over an arbitrary meaning of named types (used by the theorems) -/
+def ConfCore (leaf : Name → J → Prop) : GType → J → Prop
+  | .named n _, v => leaf n v
+  | .list t _, v => ∃ xs, v = .arr xs ∧ ∀ x ∈ xs, (t.isNonNull = false ∧ x = .null) ∨ ConfCore leaf t x
+  | .nonNull t, v => ConfCore leaf t v
+
+/-- `conf`, as a proposition: `null` iff the position is nullable; otherwise the non-null part -/
+def Conf (leaf : Name → J → Prop) (t : GType) (v : J) : Prop :=
+  (t.isNonNull = false ∧ v = .null) ∨ ConfCore leaf t v
+
 /-- is the kind usable in the direction of the target? -/
 def kindFits (k : TypeKind) (t : Target) : Bool :=
   match k with
@@ -46,6 +56,11 @@ def kindFits (k : TypeKind) (t : Target) : Bool :=
 def recordMem (fields : List (String × Bool × (J → Bool))) (kvs : List (String × J)) : Bool :=
   fields.all (fun f => let v := J.get kvs f.1; (f.2.1 && v.isAbsent) || f.2.2 v)
   && kvs.all (fun kv => kv.2.isAbsent || fields.any (·.1 == kv.1))
+
+/-- `recordMem`, as a proposition over arbitrary value sets (used by the theorems) -/
+def RecordSpec (fields : List (String × Bool × (J → Prop))) (kvs : List (String × J)) : Prop :=
+  (∀ f ∈ fields, (f.2.1 = true ∧ J.get kvs f.1 = .absent) ∨ f.2.2 (J.get kvs f.1)) ∧
+  (∀ kv ∈ kvs, kv.2 = .absent ∨ ∃ f ∈ fields, f.1 = kv.1)
 
 /-- `Ref_t(T)` with fuel (each named-type step costs one) -/
 def refMem (c : Cfg) (s : Schema) (t : Target) : Nat → Name → J → Bool
